@@ -230,6 +230,12 @@ class Engine:
                     ok = True
             if not ok:
                 miss.append('ctx:loop-over(%s)' % ','.join(ctx['loop']))
+        if ctx.get('uncond'):
+            # no `if` of the anchor's own frames around the event (a check that runs only for some inputs)
+            for fr in e.ctx:
+                if fr[0] == 'if' and flow.flat(fr[1]):
+                    miss.append('ctx:unconditional (found under a condition on %s)' % ','.join(sorted(a for a in flow.flat(fr[1]) if a[:2] in ('p:', 'F:'))[:3]))
+                    break
         if 'cond' in ctx:
             ok = False
             for fr in e.ctx:
